@@ -42,7 +42,7 @@ theorem retryCtx {c : Cfg} {ar aq : Nat} {s : S} (h : Inv c ar aq s) (hrun : s.r
     · rw [how] at ho; cases ho
     · exact ⟨hm.1, hm.2.1, hm.2.2.2.1⟩
   have hlc := h.k23 hcl (Or.inr hp)
-  obtain ⟨hpt, hure, hurr⟩ := h.k26 hcl hp
+  obtain ⟨hpt, hure, hurr, _hdet⟩ := h.k26 hcl hp
   have hsr := (h.k7 hcl).1
   have hdir : s.direct = false := not_direct_of_phase h.k7 hcl (by rw [hp]; decide)
   have hpd : s.procDone = false := by
